@@ -112,24 +112,32 @@ Proof.
 Qed.
 
 (* ---- include refuses before any file-system operation ---- *)
-Lemma include_refuses st name arg resolve fs :
+Lemma include_refuses st name arg resolve resolve_std fs :
   file_insertion_enabled st = false ->
-  include_run_prefix st name arg resolve fs = (RError 2 name, []).
+  include_run_prefix st name arg resolve resolve_std fs = (RError 2 name, []).
 Proof. intro H. unfold include_run_prefix. rewrite H. reflexivity. Qed.
 
-Lemma include_reads_when_enabled st name arg resolve fs :
+Lemma include_reads_when_enabled st name arg resolve resolve_std fs :
   file_insertion_enabled st = true ->
-  In (FsRead (resolve arg)) (snd (include_run_prefix st name arg resolve fs)).
+  In (FsRead (include_path arg resolve resolve_std))
+     (snd (include_run_prefix st name arg resolve resolve_std fs)).
 Proof.
   intro H. unfold include_run_prefix. rewrite H. simpl.
-  destruct (fs (resolve arg)); cbn [snd]; rewrite !in_app_iff; simpl; intuition.
+  destruct (fs (include_path arg resolve resolve_std)); cbn [snd]; rewrite !in_app_iff; simpl; intuition.
 Qed.
+
+(* both argument spellings: the ordinary path and the <standard include> *)
+Lemma include_path_forms arg resolve resolve_std :
+  (is_standard_arg arg = true -> include_path arg resolve resolve_std = resolve_std (standard_inner arg))
+  /\ (is_standard_arg arg = false -> include_path arg resolve resolve_std = resolve arg).
+Proof. unfold include_path. split; intro H; rewrite H; reflexivity. Qed.
 
 Section Doc.
   Variable regs : Type.
   Variable render_other : N -> regs -> list dnode * regs.
   Variable render_text : str -> regs -> list dnode * regs.
   Variable resolve : str -> str.
+  Variable resolve_std : str -> str.
   Variable fs : str -> option str.
 
   Definition refusal (name content : str) : dnode :=
@@ -147,14 +155,14 @@ Section Doc.
     end.
 
   Lemma blocks_refused st bs : file_insertion_enabled st = false ->
-    forall r, render_blocks regs render_other render_text resolve fs st bs r
+    forall r, render_blocks regs render_other render_text resolve resolve_std fs st bs r
               = (fst (render_refused bs r), snd (render_refused bs r), []).
   Proof.
     intro H. induction bs as [|b rest IH]; intro r; [reflexivity|].
     destruct b as [id|name arg content]; simpl.
     - destruct (render_other id r) as [ns r1]. rewrite IH.
       destruct (render_refused rest r1) as [ms r2]. reflexivity.
-    - rewrite (include_refuses st name arg resolve fs H). rewrite IH.
+    - rewrite (include_refuses st name arg resolve resolve_std fs H). rewrite IH.
       destruct (render_refused rest r) as [ms r2]. reflexivity.
   Qed.
 
